@@ -69,7 +69,35 @@ def slBare (sep : Bytes) : Nat → SL → R SL
           | none => .oob
           | some b => slBare sep fuel { s with buf := b, src := s.src + 1, dst := s.dst + 1, len := s.len - 1 }
 
-/-- outer `while (len > 0 && *src != '\0')`; fail 3 = SPLIT_LINE_UNMATCHED_QUOTE -/
+/-- `if (len == 0 || *src != '"') goto fail_quote; ++src; --len;` — fail 3 = SPLIT_LINE_UNMATCHED_QUOTE -/
+def slCloseQuote (q : SL) : R SL :=
+  if q.len = 0 then .fail 3
+  else match q.buf[q.src]? with
+    | none => .oob
+    | some e => if e.toNat ≠ 34 then .fail 3 else .ok { q with src := q.src + 1, len := q.len - 1 }
+
+/-- one token, quoted or bare; `c` = `*src` -/
+def slToken (sep : Bytes) (s : SL) (c : UInt8) : R SL :=
+  if c.toNat = 34 then
+    match slQuoted (s.len + 1) { s with src := s.src + 1, len := s.len - 1 } with
+    | .ok q => slCloseQuote q
+    | .fail c => .fail c
+    | .oob => .oob
+    | .spin => .spin
+  else slBare sep (s.len + 1) s
+
+/-- after a token: skip separators, `*(dst++) = '\0'`, continue with the rest of the loop (`k`) -/
+def slTail (sep : Bytes) (k : SL → R SL) (t : SL) : R SL :=
+  match slSkip sep (t.len + 1) t with
+  | .ok u =>
+    (match wr u.buf u.dst 0 with
+     | none => .oob
+     | some b => k { u with buf := b, dst := u.dst + 1 })
+  | .fail c => .fail c
+  | .oob => .oob
+  | .spin => .spin
+
+/-- outer `while (len > 0 && *src != '\0')` -/
 def slOuter (sep : Bytes) : Nat → SL → R SL
   | 0, _ => .spin
   | fuel + 1, s =>
@@ -78,27 +106,11 @@ def slOuter (sep : Bytes) : Nat → SL → R SL
       | none => .oob
       | some c =>
         if c.toNat = 0 then .ok s
-        else
-          let s := { s with args := s.dst :: s.args }
-          let tok : R SL :=
-            if c.toNat = 34 then
-              match slQuoted (s.len + 1) { s with src := s.src + 1, len := s.len - 1 } with
-              | .ok q =>
-                if q.len = 0 then .fail 3
-                else (match q.buf[q.src]? with
-                  | none => .oob
-                  | some e => if e.toNat ≠ 34 then .fail 3 else .ok { q with src := q.src + 1, len := q.len - 1 })
-              | e => e
-            else slBare sep (s.len + 1) s
-          match tok with
-          | .ok t =>
-            (match slSkip sep (t.len + 1) t with
-             | .ok u =>
-               (match wr u.buf u.dst 0 with                          -- `*(dst++) = '\0';`
-                | none => .oob
-                | some b => slOuter sep fuel { u with buf := b, dst := u.dst + 1 })
-             | e => e)
-          | e => e
+        else match slToken sep { s with args := s.dst :: s.args } c with
+          | .ok t => slTail sep (slOuter sep fuel) t
+          | .fail c => .fail c
+          | .oob => .oob
+          | .spin => .spin
 
 /--
 `split_line(line, len, sep, &out)` on the object `buf` (`line = buf`), which must be at least
